@@ -1,4 +1,5 @@
 import Mdns.Lemmas.Intf
+import Mdns.Driver.MonLink
 /-
   C18  Each interface is its own link - the component-level part.
 
@@ -7,9 +8,10 @@ import Mdns.Lemmas.Intf
   `selected_intfs` / `apply_intf_selections`, `resolve_addr_to_index`, `valid_ip_on_intf`,
   `get_addrs_on_my_intf_v4/v6`).
 
-  Not covered here (daemon level, later): that every packet for a service leaves only on
-  selected interfaces sharing a subnet with it and carries only such addresses; address
-  changes; removal of what was learned on an interface that disappears.
+  Daemon level: there is no model of the daemon's interface handling; real histories
+  (`sim C18`) are judged by `Mdns/Driver/MonLink.lean`, which computes the enabled addresses
+  with the selection function of this file.  The last section states what that computation
+  means (`hasEnabled_iff`, `disable_all_kills`, `untouched_interface_stays`).
 -/
 namespace Mdns.Props.C18
 open Mdns Mdns.Intf
@@ -151,5 +153,76 @@ example : validIpOnIntf [192, 168, 1, 20] [192, 168, 1, 10] [255, 255, 255, 0] =
 
 example : addrsOnIntf true [[192, 168, 1, 20], [10, 0, 0, 1], eth0v6.ip]
     [([192, 168, 1, 10], [255, 255, 255, 0])] = [[192, 168, 1, 20]] := by decide
+
+/-! ## The daemon-level monitor's notion of "enabled" -/
+
+open Mdns.Driver.MonLink in
+/-- What the monitor computes: interface index `idx` has an enabled address (of family `fam`,
+    if given) exactly if the table holds an address with that index (and family) whose LAST
+    matching selection in call order enables it - or that no selection matches. -/
+theorem hasEnabled_iff (table : List Iface) (sels : List Selection) (idx : Nat) (fam : Option Bool) :
+    hasEnabled table sels idx fam = true ↔
+      ∃ i ∈ table, i.index = some idx ∧ (lastMatch sels i).getD true = true ∧
+        (∀ v4, fam = some v4 → isV4ip i.ip = v4) := by
+  unfold hasEnabled selected
+  simp only [List.any_eq_true, Bool.and_eq_true, beq_iff_eq]
+  constructor
+  · rintro ⟨i, hi, ⟨h1, h2⟩, h3⟩
+    refine ⟨i, hi, h1, h2, ?_⟩
+    intro v4 hv
+    subst hv
+    simpa using h3
+  · rintro ⟨i, hi, h1, h2, h3⟩
+    refine ⟨i, hi, ⟨h1, h2⟩, ?_⟩
+    cases fam with
+    | none => rfl
+    | some v4 => simpa using h3 v4 rfl
+
+open Mdns.Driver.MonLink in
+/-- `disable_interface(All)` as the last call leaves no interface enabled, whatever was
+    selected before. -/
+theorem disable_all_kills (table : List Iface) (sels : List Selection) (idx : Nat) (fam : Option Bool) :
+    hasEnabled table (sels ++ [(.all, false)]) idx fam = false := by
+  have : ∀ i, selected (sels ++ [(.all, false)]) i = false := by
+    intro i
+    have := last_match_wins sels [] (.all, false) i (by simp [IfKind.matches]) (by simp)
+    simpa using this
+  unfold hasEnabled
+  simp [this]
+
+open Mdns.Driver.MonLink in
+/-- A call that does not match any address of an interface changes nothing for it. -/
+theorem untouched_interface_stays (table : List Iface) (sels : List Selection) (s : Selection) (idx : Nat)
+    (fam : Option Bool) (h : ∀ i ∈ table, i.index = some idx → s.1.matches i = false) :
+    hasEnabled table (sels ++ [s]) idx fam = hasEnabled table sels idx fam := by
+  unfold hasEnabled
+  induction table with
+  | nil => rfl
+  | cons i rest ih =>
+    have ih' := ih (fun j hj => h j (List.mem_cons_of_mem _ hj))
+    simp only [List.any_cons]
+    rw [ih']
+    have hsel : i.index = some idx → selected (sels ++ [s]) i = selected sels i := by
+      intro hx
+      have hm := h i (List.mem_cons_self) hx
+      unfold selected lastMatch
+      simp [List.reverse_append, hm]
+    by_cases hx : i.index = some idx
+    · rw [hsel hx]
+    · have : (i.index == some idx) = false := by simpa using hx
+      simp [this]
+
+/-- a dual-stack eth0 and an IPv4-only eth1: disabling IPv4 leaves eth0 its IPv6 address and
+    kills eth1; enabling eth1 by name afterwards revives it -/
+example :
+    let t : List Iface := [
+      { name := [0x65], index := some 2, ip := [192, 168, 1, 10], prefixLen := 24 },
+      { name := [0x65], index := some 2, ip := List.replicate 16 1, prefixLen := 64 },
+      { name := [0x66], index := some 3, ip := [10, 0, 0, 5], prefixLen := 8 }]
+    Mdns.Driver.MonLink.hasEnabled t [(.ipv4, false)] 2 none = true ∧
+    Mdns.Driver.MonLink.hasEnabled t [(.ipv4, false)] 2 (some true) = false ∧
+    Mdns.Driver.MonLink.hasEnabled t [(.ipv4, false)] 3 none = false ∧
+    Mdns.Driver.MonLink.hasEnabled t [(.ipv4, false), (.name [0x66], true)] 3 none = true := by
+  decide
 
 end Mdns.Props.C18
